@@ -86,6 +86,25 @@ CHECKS = {
         "join and basin readers are compared in the C09/C07 checks."),
   technique="TLC model checking + spec-history replay on real files",
  ),
+ "C01": dict(
+  level="model_checking",
+  design_ref="DESIGN.md section 5, C01",
+  text=("WriterSpec gives the meaning of open(append/replace/reset), "
+        "store_feature, store_log and close on token sequences and is the "
+        "oracle; WriterImpl transcribes write_ndarray's resize + chunk loop "
+        "with remainder, write_ragged's per-instance counter and "
+        "write_text's fixed string width and is checked by TLC against the "
+        "spec (ReadBack, LogsIntact, AppendOnly) for all histories in the "
+        "bound. Every history up to the depth bound, for each feature kind "
+        "(scalar, uint32, image, mask, contour, trace) and 5 log-line "
+        "classes, is executed on the real RTDCWriter with the chunk length "
+        "forced to 10 (and 13); after every close the file is read through "
+        "dclab and raw h5py and decoded bit-exactly back to tokens."),
+  note=("compression filters trusted; metadata typing is decided by C11; "
+        "sizes per call {1,10,11} (thorough {1,9,10,11,21}); quick depth 5 "
+        "(logs 4), thorough 6 (logs 5); two features per TLC instance."),
+  technique="TLC model checking + spec-history replay on real files",
+ ),
 }
 
 NOT_YET = "check not built yet (work in progress; see DESIGN.md section 5)"
